@@ -218,6 +218,7 @@ type Rec struct {
 	NoPush      bool
 	finished    bool
 	Trailer     http.Header
+	sniff       []byte // first bytes written before the first flush (kept for HEAD too: net/http sniffs them although it sends none)
 }
 
 // NewRec makes a writer for a request with the given method.
@@ -263,6 +264,9 @@ func (w *Rec) Write(p []byte) (int, error) {
 	if !bodyAllowed(w.Status) {
 		w.WriteErrs++
 		return 0, http.ErrBodyNotAllowed
+	}
+	if w.preFlush < 0 && len(w.sniff) < 512 {
+		w.sniff = append(w.sniff, p[:min(len(p), 512-len(w.sniff))]...)
 	}
 	if w.Method == "HEAD" {
 		return len(p), nil
@@ -315,17 +319,20 @@ func (w *Rec) Finish() *Rec {
 	if !w.Committed {
 		w.WriteHeader(200)
 	}
-	if _, ok := w.Snap["Content-Type"]; !ok && w.Snap.Get("Content-Encoding") == "" && bodyAllowed(w.Status) && w.Method != "HEAD" {
-		b := w.Body.Bytes()
-		if w.preFlush >= 0 && w.preFlush < len(b) {
-			b = b[:w.preFlush]
+	if _, ok := w.Snap["Content-Type"]; !ok && w.Snap.Get("Content-Encoding") == "" && bodyAllowed(w.Status) {
+		if len(w.sniff) > 0 {
+			w.Snap.Set("Content-Type", http.DetectContentType(w.sniff))
 		}
-		if len(b) > 0 {
-			if len(b) > 512 {
-				b = b[:512]
-			}
-			w.Snap.Set("Content-Type", http.DetectContentType(b))
-		}
+	}
+	// headers net/http never sends with these statuses
+	switch {
+	case w.Status == 304:
+		w.Snap.Del("Content-Type")
+		w.Snap.Del("Content-Length")
+		w.Snap.Del("Transfer-Encoding")
+	case w.Status == 204 || (w.Status >= 100 && w.Status <= 199):
+		w.Snap.Del("Content-Length")
+		w.Snap.Del("Transfer-Encoding")
 	}
 	w.Trailer = http.Header{}
 	for _, t := range w.Snap.Values("Trailer") {
